@@ -7,6 +7,7 @@ package main
 
 import (
 	"bufio"
+	"encoding/json"
 	"flag"
 	"fmt"
 	"go/ast"
@@ -251,6 +252,9 @@ func recordChan(pi *pkgInfo, info *types.Info, fn, name string, e ast.Expr) {
 }
 
 func exact(v constant.Value) string {
+	if v.Kind() == constant.String {
+		return "S:" + constant.StringVal(v)
+	}
 	if v.Kind() == constant.Int {
 		return v.ExactString()
 	}
@@ -357,6 +361,17 @@ func main() {
 			fmt.Fprintf(&e, "%s %s\n", k, values[k])
 		}
 		os.WriteFile(*expectedPath, []byte(e.String()), 0644)
+	}
+	// string facts for the harness (not used by Coq)
+	if *out != "" {
+		rp := get("apps/proxy/reportfeed")
+		tmpl := strings.TrimPrefix(rp.consts[".reportFormat"], "S:")
+		js, _ := json.Marshal(map[string]string{"reportFormat": tmpl})
+		path := filepath.Join(*out, "facts.json")
+		old, _ := os.ReadFile(path)
+		if string(old) != string(js) {
+			os.WriteFile(path, js, 0644)
+		}
 	}
 	fmt.Printf("genfacts: %d constants\n", len(values))
 }
